@@ -14,6 +14,9 @@ Record ccall := mk_ccall {
   cc_exp_method : string;       (* "-" = no request expected *)
   cc_exp_target : string;
   cc_ident : string;            (* canonical form of (operation, names, version, flags, query values, body names) *)
+  cc_rid : string;              (* canonical form of the RESOURCE addressed, independent of the operation: two
+                                   operations related by delegation (GetRevisionNumber / GetEnvironmentRevisionTag,
+                                   GetEnvironment without version / EnvironmentExists, ...) have the same one *)
   cc_tag : string;              (* revision tag of a conditional update, "" otherwise *)
   cc_diag : bool;               (* the method returns diagnostics *)
   (* observation; None = the implementation panicked *)
@@ -75,15 +78,28 @@ Definition count_non_get (l : list request) : nat :=
 
 Definition first_reply (c : ccall) : reply := nth 0 (cc_script c) (cc_final c).
 
-(* (new, known) failures of one call *)
+(* (new, known) failures of one call.  The rule applies to the replies the per-method decoding sees
+   ([diag_applicable]: not 429, not 401 on a client without a token - those are answered by httpCall's generic
+   "rate limit" / "login" errors, which is what the rule then requires; counted as `diag_outside` in the evidence).
+   The known class is exactly that of
+   C20-diag-code (body code absent or not 400), and a failure counts as that finding only when the model - which
+   reproduces it - predicts exactly what the implementation did on this call (DESIGN section 6, rule 2). *)
+Definition diag_applicable (s : N) (token : string) : bool :=
+  negb (s =? 429) && negb ((s =? 401) && String.eqb token "").
+
 Definition diag_rule (c : ccall) (o : call_obs) : bool * bool :=
   if cc_diag c && Nat.eqb (length (co_requests o)) 1 then
     match first_reply c with
     | RpResp s (BJson code n) _ _ =>
         if (400 <=? s) && (s <=? 499) && negb (Nat.eqb n 0) then
-          let okres := result_eqb (co_result o) (RDiags n) in
-          let known := negb (code_or_zero code =? 400) || (s =? 429) || ((s =? 401) && String.eqb (cc_token c) "") in
-          (negb okres && negb known, negb okres && known)
+          if diag_applicable s (cc_token c) then
+            let okres := result_eqb (co_result o) (RDiags n) in
+            let known := negb (code_or_zero code =? 400) && negb (call_mismatch c) in
+            (negb okres && negb known, negb okres && known)
+          else
+            (* intercepted: the generic failure, never a success and never diagnostics *)
+            let expected := if (s =? 401) && String.eqb (cc_token c) "" then RErr "login" 0 else RErr "ratelimit" 0 in
+            (negb (result_eqb (co_result o) expected), false)
         else (false, false)
     | _ => (false, false)
     end
@@ -126,23 +142,43 @@ Definition call_spec_known (c : ccall) : bool :=
 Definition first_req (c : ccall) : option request :=
   match cc_obs c with Some o => hd_error (co_requests o) | None => None end.
 
-Definition collide (a b : ccall) : bool :=
-  String.eqb (cc_op a) (cc_op b) && names_valid a && names_valid b
-  && negb (String.eqb (cc_ident a) (cc_ident b))
-  && match first_req a, first_req b with
-     | Some x, Some y => String.eqb (rq_method x) (rq_method y) && String.eqb (rq_target x) (rq_target y)
-                         && list_eqb kv_eqb (rq_body x) (rq_body y)
-     | _, _ => false
-     end.
-
-Fixpoint any_collision (cs : case) : bool :=
-  match cs with
-  | [] => false
-  | c :: r => existsb (collide c) r || any_collision r
+Definition same_first_req (a b : ccall) : bool :=
+  match first_req a, first_req b with
+  | Some x, Some y => String.eqb (rq_method x) (rq_method y) && String.eqb (rq_target x) (rq_target y)
+                      && list_eqb kv_eqb (rq_body x) (rq_body y)
+  | _, _ => false
   end.
 
+Definition collide (a b : ccall) : bool :=
+  String.eqb (cc_op a) (cc_op b) && names_valid a && names_valid b
+  && negb (String.eqb (cc_ident a) (cc_ident b)) && same_first_req a b.
+
+(* ACROSS operations: two calls of different operations that address different resources must not produce the same
+   request (same verb, same target, same body).  Known finding C20-route-words: it happens when a name is itself a
+   route word; the class is read from the operation table (Model.Client.route_words) and - the model reproducing the
+   finding - counts only when the model predicts both observations exactly. *)
+Definition cross_collide (a b : ccall) : bool :=
+  negb (String.eqb (cc_op a) (cc_op b)) && names_valid a && names_valid b
+  && negb (String.eqb (cc_rid a) (cc_rid b)) && same_first_req a b.
+
+Definition route_word_name (c : ccall) : bool := existsb is_route_word (cc_pn c).
+
+Definition cross_known (a b : ccall) : bool :=
+  cross_collide a b && (route_word_name a || route_word_name b)
+  && negb (call_mismatch a) && negb (call_mismatch b).
+
+Definition cross_new (a b : ccall) : bool := cross_collide a b && negb (cross_known a b).
+
+Fixpoint any_pair (p : ccall -> ccall -> bool) (cs : case) : bool :=
+  match cs with
+  | [] => false
+  | c :: r => existsb (p c) r || any_pair p r
+  end.
+
+Definition any_collision (cs : case) : bool := any_pair (fun a b => collide a b || cross_new a b) cs.
+
 Definition spec_fail_new (cs : case) : bool := existsb call_spec_fail cs || any_collision cs.
-Definition spec_fail_known (cs : case) : bool := existsb call_spec_known cs.
+Definition spec_fail_known (cs : case) : bool := existsb call_spec_known cs || any_pair cross_known cs.
 Definition spec_fail (cs : case) : bool := spec_fail_new cs || spec_fail_known cs.
 Definition known (cs : case) : bool := spec_fail_known cs.
 
@@ -230,14 +266,14 @@ Definition dec_obs (x : sexp) : option (option call_obs) :=
 
 Definition dec_call (x : sexp) : option ccall :=
   match x with
-  | SList [Atom "call"; Atom op; s; n; tok; script; final; pn; Atom em; et; ident; tag; dg; obs] =>
+  | SList [Atom "call"; Atom op; s; n; tok; script; final; pn; Atom em; et; ident; rid; tag; dg; obs] =>
       match slist_of atom_str s, slist_of dec_optZ n, atom_str tok, slist_of dec_reply script, dec_reply final with
       | Some s, Some n, Some tok, Some script, Some final =>
           match slist_of atom_str pn, atom_str et, atom_str ident, atom_str tag with
           | Some pn, Some et, Some ident, Some tag =>
-              match atom_bool dg, dec_obs obs with
-              | Some dg, Some obs => Some (mk_ccall op s n tok script final pn em et ident tag dg obs)
-              | _, _ => None
+              match atom_bool dg, dec_obs obs, atom_str rid with
+              | Some dg, Some obs, Some rid => Some (mk_ccall op s n tok script final pn em et ident rid tag dg obs)
+              | _, _, _ => None
               end
           | _, _, _, _ => None
           end
